@@ -262,3 +262,10 @@ def run(ctx):
     cov = evidence.mc_coverage(p["states"], p["transitions"], p["replayed"], p["samples"], exhaustive=True,
                                checker_cmd="tlc C13_PushMC.tla; tlc C13_PushObs.tla", push={k: v for k, v in p.items() if k != "samples"})
     return {"level": "model_checking", "coverage": cov, "assumptions": ["developer run of the push part of C13"]}
+
+
+# engine entry for the MANIFEST of C13 (checks/C13.py lists the engines; this part must not edit it)
+ENGINE = {"name": "C13_Push", "path": "spec/C13_Push.tla", "serves_properties": ["C13"],
+          "kind_free_text": "TLA+ spec of the identify push / snapshot side + TLC exhaustive (safety, convergence as liveness) + "
+                            "full-transition replay through gates on the real idService + TLC validation of gate-free concurrent "
+                            "runs against the observable-level spec C13_PushObs.tla"}
